@@ -92,6 +92,8 @@ pub struct HandlerSpec {
     pub fn_name: &'static str,
     /// wire name per the property (the method's snake_case name); "" for struct messages / replies
     pub wire: &'static str,
+    /// a second wire name forwarded to the variant with `#[sv::attr(serde(alias = ".."))]` ("" = none)
+    pub alias: &'static str,
     /// whether the name has the regular shape (words of [a-z]+[0-9]*, single underscores)
     pub regular: bool,
     pub args: &'static [ArgSpec],
